@@ -36,6 +36,13 @@ const (
 	ApplyThenDrop
 	// DropBefore closes the connection without applying the command.
 	DropBefore
+	// ApplyPartThenError: an insert of more documents than SetPartialDocs(n) stores its first n documents and
+	// then answers with a command error (an ordered bulk insert that is interrupted keeps what it has written).
+	// Any other command is not applied at all (FailBefore).
+	ApplyPartThenError
+	// ApplyPartThenStop: the same, but instead of answering the server dies: the connection is closed and every
+	// later command is dropped until Resume(). Any other command: the server dies before applying it.
+	ApplyPartThenStop
 )
 
 func (f Fault) String() string {
@@ -50,6 +57,10 @@ func (f Fault) String() string {
 		return "ApplyThenDrop"
 	case DropBefore:
 		return "DropBefore"
+	case ApplyPartThenError:
+		return "ApplyPartThenError"
+	case ApplyPartThenStop:
+		return "ApplyPartThenStop"
 	}
 	return fmt.Sprintf("Fault(%d)", int(f))
 }
@@ -102,6 +113,8 @@ type CmdRecord struct {
 	ConnID     int
 	// Outcome is "ok", "error:<code>", or the name of the injected fault / "stopped" / "closed".
 	Outcome string
+	// NDocs is the number of documents of an insert (0 for other commands).
+	NDocs int
 }
 
 // WriteEvent is one applied write.
@@ -158,6 +171,7 @@ type Server struct {
 	faultMsg    string
 	handshakes  int
 	insertSplit func(c *Cmd, ndocs int) int
+	partialDocs int
 
 	// gmu guards the gate.
 	gmu         sync.Mutex
@@ -318,6 +332,11 @@ func (s *Server) handle(req *request, connID int) (reply bson.D, keep bool) {
 	}
 
 	rec := &CmdRecord{Verb: verb, NS: cmd.NS, Summary: summarize(req.body), Start: time.Now(), ConnID: connID, Outcome: "pending"}
+	if verb == "insert" {
+		if docs, ok := getDocs(req.body, "documents"); ok {
+			rec.NDocs = len(docs)
+		}
+	}
 	s.mu.Lock()
 	s.seq++
 	cmd.Seq = s.seq
@@ -372,6 +391,21 @@ func (s *Server) handle(req *request, connID int) (reply bson.D, keep bool) {
 	case DropBefore:
 		finish(fault.String())
 		return nil, false
+	case ApplyPartThenError, ApplyPartThenStop:
+		s.mu.Lock()
+		if docs, ok := getDocs(cmd.Body, "documents"); ok && verb == "insert" && len(docs) > s.partialDocs && s.partialDocs > 0 {
+			s.insertRange(cmd, docs, 0, s.partialDocs, isOrdered(cmd.Body))
+			cmd.Partial = s.partialDocs
+		}
+		if fault == ApplyPartThenStop {
+			s.stopEnabled, s.stopAfter = true, cmd.Seq-1
+		}
+		s.mu.Unlock()
+		finish(fmt.Sprintf("%s(%d)", fault, cmd.Partial))
+		if fault == ApplyPartThenStop {
+			return nil, false
+		}
+		return s.injectedError(), true
 	}
 
 	s.mu.Lock()
@@ -668,6 +702,13 @@ func (s *Server) SetFaultError(code int32, codeName, msg string) {
 func (s *Server) SetLatencyHook(h func(c *Cmd) time.Duration) {
 	s.mu.Lock()
 	s.latencyHook = h
+	s.mu.Unlock()
+}
+
+// SetPartialDocs sets how many documents an insert hit by ApplyPartThenError / ApplyPartThenStop stores.
+func (s *Server) SetPartialDocs(n int) {
+	s.mu.Lock()
+	s.partialDocs = n
 	s.mu.Unlock()
 }
 
